@@ -18,7 +18,9 @@ def eval_nodes(d, xs, acc):
     """evaluate an expression bottom-up on the real objects; records (op, left samples, right samples,
     result samples) for every internal node so the pointwise oracle can look at all of them"""
     if 'prim' in d:
-        return build_any(d)
+        obj = build_any(d)
+        _LEAVES.append(obj)
+        return obj
     if 'scalar' in d:
         return O.build_scalar(d)
     left = eval_nodes(d['l'], xs, acc)
@@ -28,6 +30,9 @@ def eval_nodes(d, xs, acc):
            'div': lambda: left / right}[op]()
     acc.append((op, sample_any(left, xs), sample_any(right, xs), sample_any(res, xs)))
     return res
+
+
+_LEAVES = []
 
 
 def build_any(d):
@@ -56,7 +61,10 @@ def impl_call(case):
     xs = np.array([O.fl(x) for x in case['xs']])
     acc = []
 
+    after = {}
+
     def f():
+        del _LEAVES[:]
         obj = eval_nodes(case['expr'], xs, acc)
         kind = O.kind_of(obj)
         out = {'kind': kind}
@@ -66,8 +74,22 @@ def impl_call(case):
                 out['sample_err'] = v[1]
             else:
                 out['vals'] = v
+                # the result is an object of its own: moving an operand to another redshift afterwards must not move it
+                moved = 0
+                for leaf in (_LEAVES if 'op' in case['expr'] else []):
+                    if type(leaf).__name__ == 'SourceSpectrum':
+                        try:
+                            leaf.z = float(leaf.z) * 2 + 1
+                            moved += 1
+                        except Exception:   # noqa
+                            pass
+                if moved:
+                    w = sample_any(obj, xs)
+                    after['moved'] = moved
+                    after['same'] = (not isinstance(w, tuple)) and w is not None and np.array_equal(np.asarray(w), np.asarray(v), equal_nan=True)
         return out
     out = guarded(f)
+    out['_after_operand_z'] = after
     # pointwise bookkeeping for the oracle (kept out of the comparison)
     nodes = []
     for op, a, b, r in acc:
@@ -197,6 +219,10 @@ def oracle(rep, case, out):
             if abs(ri - ex) > 1e-9 * max(abs(ex), abs(ai), abs(bi) if op != 'div' else 0) + 1e-300:
                 rep.oracle_fail('pointwise:%s' % op, '%r %s %r gave %r' % (ai, op, bi, ri), case, out)
                 return
+    af = out.get('_after_operand_z') or {}
+    if af.get('moved') and not af.get('same'):
+        rep.oracle_fail('frame:result_moved_with_operand_z:%s' % sig_cls,
+                        'the result samples differently after %d of its source operands were assigned another redshift' % af['moved'], case, out)
     sw = out.get('_swapped')
     if sw is not None:
         if 'err' in sw or sw['ok']['kind'] != out['ok']['kind']:
